@@ -197,7 +197,7 @@ pub fn check_case(tape: &[u16], rc: &mut RCase) -> Result<(), Failure> {
 pub fn run(tier: Tier, seed: u64) -> Report {
     let mut r = Report::new("C04", tier, seed);
     r.rule = "balanced source templates with 1..4 input blocks (+ optional collateral) whose queries overlap by construction \
-              (same party, equal or nested min_amount, equal refs, single and input*), stores from exactly enough distinct \
+              (same party, equal or nested min_amount, equal refs, single and input*), 0-2 reference blocks pointing at any store UTxO (also one an input takes), stores from exactly enough distinct \
               UTxOs down to one short. The resolver's stages are replayed through public API with inputs::resolve in the \
               middle (3 fee rounds) so that the per-block sets are visible, and the same cases go through resolve_tx. \
               distinct = hash(source, store); non-trivial = judged Ok and >=2 blocks whose candidate sets intersect"
